@@ -402,7 +402,7 @@ const MALFORMED: [(&str, &[&str]); 10] = [
     ("returns-two-identifiers", &[" @returns a b: text"]),
 ];
 
-const MISFIT: [(&str, &[&str]); 9] = [
+const MISFIT: [(&str, &[&str]); 10] = [
     ("param-no-such-parameter", &[" @param nosuchparam: text"]),
     ("returns-on-non-returning", &[" @returns: text"]),
     ("param-on-non-operation", &[" @param x: text"]),
@@ -414,6 +414,8 @@ const MISFIT: [(&str, &[&str]); 9] = [
     // the message runs over several lines and ends in a smaller column than the tag line
     ("param-on-non-operation-multiline", &[" @param someLongParameterName: description of it", " ok"]),
     ("returns-on-non-returning-multiline", &[" @returns: a long first line of text for the message", " x", " y z"]),
+    // `returnValue` is what the compiler itself calls an unnamed return value: the comment may not
+    ("returns-internal-name-on-unnamed-return", &[" @returns returnValue: text"]),
 ];
 
 /// Number of IncorrectDocComment lints a misfit form must at least produce.
@@ -466,6 +468,7 @@ pub fn make_defect(u: &mut Unstructured, cfg: &GenCfg) -> Result<Defect, &'stati
                 vkind == "operation" && op_info.map(|o| o.0 >= 1).unwrap_or(false)
             }
             "two-params-no-such-parameter" => vkind == "operation",
+            "returns-internal-name-on-unnamed-return" => vkind == "operation" && single_unnamed_return(&p, &victim),
             _ => false,
         }
     };
@@ -541,6 +544,18 @@ fn defect_case(cx: &mut CaseCtx, input: Input, cfg: &GenCfg) -> CaseResult {
 }
 
 /// (number of return members, number of parameters) of the operation at `path`
+fn single_unnamed_return(p: &Program, path: &str) -> bool {
+    let segs: Vec<&str> = path.split('/').collect();
+    if segs.len() != 3 {
+        return false;
+    }
+    let (Ok(fi), Ok(di), Ok(k)) = (segs[0][1..].parse::<usize>(), segs[1][1..].parse::<usize>(), segs[2][1..].parse::<usize>()) else { return false };
+    match p.files.get(fi).and_then(|f| f.defs.get(di)) {
+        Some(DefM::Interface(i)) => i.ops.get(k).map(|o| matches!(o.ret, RetM::Single(_))).unwrap_or(false),
+        _ => false,
+    }
+}
+
 fn operation_info(p: &Program, path: &str) -> Option<(usize, usize)> {
     let segs: Vec<&str> = path.split('/').collect();
     if segs.len() != 3 {
